@@ -512,6 +512,38 @@ pub fn run(ctx: &Ctx, rep: &mut Reporter) {
             for k in 0..4 {
                 items.push(gen_item(&mut rng, case_idx.wrapping_add(k)));
             }
+            if rng.chance(1, 300) {
+                // one part longer than 64 KiB (a 16-bit length, a bounded scan)
+                let long = |rng: &mut Rng| -> String {
+                    let unit = *rng.pick(&["a", "Z9", "é", "$_"]);
+                    let n = *rng.pick(&[65_530usize, 65_536, 65_540, 70_000]);
+                    let mut s = String::with_capacity(n + 4);
+                    while s.len() < n {
+                        s.push_str(unit);
+                    }
+                    s
+                };
+                let it = match rng.below(6) {
+                    0 => Item::Class { orig: long(&mut rng), obf: qualified(&mut rng, 2) },
+                    1 => Item::Class { orig: qualified(&mut rng, 2), obf: long(&mut rng) },
+                    2 => Item::Field { ty: ty(&mut rng), orig: long(&mut rng), obf: ident(&mut rng) },
+                    3 => Item::HeaderKV { key: "compiler".into(), value: Some(long(&mut rng)) },
+                    4 => Item::SourceFileJson { name: long(&mut rng) },
+                    _ => {
+                        let c = rng.below(48);
+                        let mut m = gen_method(&mut rng, c);
+                        match rng.below(4) {
+                            0 => m.orig = long(&mut rng),
+                            1 => m.obf = long(&mut rng),
+                            2 => m.args = long(&mut rng),
+                            _ => m.ret = long(&mut rng),
+                        }
+                        Item::Method(m)
+                    }
+                };
+                items.push(it);
+                rep.count("lines_with_a_part_longer_than_64KiB", 1);
+            }
             for it in &items {
                 check_wellformed_alone(it, &mut rng, rep, case_idx);
                 for (kind, bad) in malformed_from(it, &mut rng) {
